@@ -119,6 +119,8 @@ class AppHooks(ClassHooks):
         eng.trace.append((name + "->", o))
         if o == "data":
             return Opaque("data", cls="Alignment", produced_by=name)
+        if o == "falsy-data":           # a completed value that is falsy (0, an empty collection, a zero-length alignment)
+            return Opaque("data", cls="Alignment", produced_by=name, truthy=False)
         if o == "None":
             return None
         if o == "NotCompleted":
@@ -187,7 +189,7 @@ def run_call(chk):
     for skip, (tname, app_type), has_input, dts, vname in itertools.product(
             (True, False), (("LOADER", LOADER), ("GENERIC", GENERIC), ("WRITER", WRITER)), (False, True),
             (("Alignment",), (), ("SerialisableType",)), VALS):
-        hooks = AppHooks(funcs, MAIN_OUTCOMES, ["data", "NotCompleted"])  # upstream app: by its own contract
+        hooks = AppHooks(funcs, MAIN_OUTCOMES + ["falsy-data"], ["data", "falsy-data", "NotCompleted"])  # upstream app: by its own contract
         hooks.funcs["_validate_data_type"] = funcs["_validate_data_type"]
         eng = Engine(funcs, hooks)
         state = {}
@@ -242,7 +244,13 @@ def run_call(chk):
             if main_out and main_out[0].startswith("raise ") and main_out[0] != "raise KeyboardInterrupt":
                 note("post: an Exception in main() gives NotCompleted(ERROR) naming this app",
                      is_nc(r) and r.attrs["kind"] == "ERROR" and r.attrs.get("origin") is not None, info)
+            # (10) a completed value of the upstream app -- whatever its truth value -- reaches this app's main()
+            if has_input and app_type is not LOADER and info["input_out"] in ("data", "falsy-data") and dts != ("SerialisableType",):
+                note("post: a completed (possibly falsy) value of the upstream app reaches main()", len(main_calls) == 1, info)
             # (7) main returning data is returned unchanged
+            if main_out == ["falsy-data"]:
+                note("post: a falsy value main() returns is returned unchanged",
+                     isinstance(r, Opaque) and r.tag == "data" and r.attrs.get("produced_by") == "main", info)
             if main_out == ["data"]:
                 note("post: the value main() returns is returned unchanged",
                      isinstance(r, Opaque) and r.tag == "data" and r.attrs.get("produced_by") == "main", info)
